@@ -178,15 +178,15 @@ def hasHide (found : Option RM) (origPresent : Bool) (tag : StarTag) : Bool × B
     | .arg _ (some t) => if t = tag && origPresent then (true, false) else (false, true)
     | _ => (false, true)
 
-def starredValues : ArgList → List Tree
-  | .nil => []
-  | .plain _ rest => starredValues rest
-  | .starred t rest => t :: starredValues rest
+def ArgList.starCount : ArgList → Nat
+  | .nil => 0
+  | .plain _ rest => rest.starCount
+  | .starred _ rest => rest.starCount + 1
 
-def dstarValues : KwList → List Tree
-  | .nil => []
-  | .kw _ _ rest => dstarValues rest
-  | .dstar v rest => v :: dstarValues rest
+def KwList.dstarCount : KwList → Nat
+  | .nil => 0
+  | .kw _ _ rest => rest.dstarCount
+  | .dstar _ rest => rest.dstarCount + 1
 
 mutual
   /-- `self.visit(node)`.  `force` = process a Call now even in a nested namespace (used when
@@ -218,8 +218,16 @@ mutual
           | _ => st
         let (args, st) := resolveArgs as st
         let (kwargs, st) := resolveKws ks st
-        let (va, st) := resolveStar (starredValues as) st
-        let (vk, st) := resolveStar (dstarValues ks) st
+        -- get_starargs / get_kwargs: none → None; exactly one → resolve_name(value, ro=True);
+        -- several → Unknown(list), which is never visited
+        let (va, st) :=
+          if as.starCount = 0 then (none, st)
+          else if as.starCount = 1 then resolveOnlyStar as st
+          else (some RM.unknown, st)
+        let (vk, st) :=
+          if ks.dstarCount = 0 then (none, st)
+          else if ks.dstarCount = 1 then resolveOnlyDstar ks st
+          else (some RM.unknown, st)
         let (uva, ha) := hasHide va st.hasVa .va
         let (uvk, hk) := hasHide vk st.hasVk .vk
         { st with calls := st.calls ++ [{ wrapped := wrapped, args := args, kwargs := kwargs,
@@ -263,15 +271,23 @@ mutual
       let (rs, st) := resolveKws rest st
       ((n, untaint r) :: rs, st)
 
-  /-- `get_starargs` / `get_kwargs` followed by `resolve_name(…, ro=True)`:
-      none → None; exactly one → resolved; several → `Unknown(list)` (never visited) -/
-  def resolveStar : List Tree → VState → Option RM × VState
-    | [], st => (none, st)
-    | [t], st =>
+  /-- the single Starred argument: `resolve_name(value, ro=True)` -/
+  def resolveOnlyStar : ArgList → VState → Option RM × VState
+    | .nil, st => (none, st)
+    | .plain _ rest, st => resolveOnlyStar rest st
+    | .starred t _, st =>
       let (r, st) := resolveCore t false st
       let st := if isNameNode t then st else visit false t st
       (some (untaint r), st)
-    | _ :: _ :: _, st => (some .unknown, st)
+
+  /-- the single `**` argument -/
+  def resolveOnlyDstar : KwList → VState → Option RM × VState
+    | .nil, st => (none, st)
+    | .kw _ _ rest, st => resolveOnlyDstar rest st
+    | .dstar v _, st =>
+      let (r, st) := resolveCore v false st
+      let st := if isNameNode v then st else visit false v st
+      (some (untaint r), st)
 end
 
 /-- `for node, ns in self.to_revisit: self.namespace = ns; self.process_Call(node)` — the list
